@@ -405,10 +405,29 @@ def r8_receiver_addresses(run, ctx):
     got = org.of(arg_of(ctor[1], 1), ctor[0].id)
     ok = got and all(a.kind == "call" and a.text == "self.config.endpoint"
                      for a in got)
+    CONTEXTS = {"'sp'", "'idp'", "'aa'", "'aq'", "'pdp'"}
     for a in got:
         if a.kind == "call" and a.ast is not None:
             args = [unparse(x) for x in a.ast.args]
             ok = ok and args[:2] == ["service", "binding"]
+    # every endpoint lookup names a real configuration context: the entity's
+    # own type, or one of the literal section names of config.SPEC
+    for nd2, c2 in cfg.call_nodes("endpoint"):
+        if attr_chain(c2.func) != "self.config.endpoint":
+            continue
+        ctx = arg_of(c2, 2, "context")
+        catoms = org.of(ctx, nd2.id) if ctx is not None else set()
+        cok = bool(catoms) and all(
+            (a.kind == "attr" and a.text == "self.entity_type") or
+            (a.kind == "const" and a.text in CONTEXTS) for a in catoms)
+        run.check(cok, "R8", fi.qual + "::endpoint-context:" + unparse(ctx),
+                  "own endpoints are looked up in a real configuration section "
+                  "(entity type or 'sp'/'idp'/'aa'/'aq'/'pdp')",
+                  "endpoints are looked up under context %s (derives from %s), "
+                  "which is not a configuration section name: the list of own "
+                  "endpoints comes back empty and the Destination test is "
+                  "skipped" % (unparse(ctx), sorted(repr(a) for a in catoms)),
+                  fi.loc(c2))
     run.check(ok, "R8", fi.qual + "::receiver_addresses",
               "config.endpoint(service, binding, <own type>)",
               "receiver addresses derive from %s" % sorted(repr(a) for a in got),
